@@ -24,12 +24,14 @@ from __future__ import annotations
 import collections
 import json
 import multiprocessing as mp
+import os
 import random
 import re
+import shutil
 import time
 from concurrent.futures import ThreadPoolExecutor
 
-from .. import graph, tlc
+from .. import graph, imgs, tlc
 from .. import x04_world as W
 from ..core import Report
 
@@ -483,7 +485,7 @@ def _replay(rep: Report, replay: dict) -> None:
 def main(rep: Report, replay: dict | None) -> None:
     rep.assumptions += ASSUMPTIONS
     rep.rule = (
-        "spec->code: every transition between model states of weight <= 3 (per configuration: image "
+        "spec->code: every transition between model states of weight <= 3 / 2 (per configuration: image "
         "size setting x widget table x cached canvas per widget x placeholder per class x failing) x "
         "every operation of the alphabet, replayed on real widgets with the full projection compared "
         "after each step; code->spec: seeded random histories on random configurations validated by "
@@ -501,6 +503,8 @@ def main(rep: Report, replay: dict | None) -> None:
         t0 = time.time()
 
     W.setup()
+    W.RUN_DIR = imgs.TMP / f"x04-run-{os.getpid()}"
+    shutil.rmtree(W.RUN_DIR, ignore_errors=True)
     pool = mp.get_context("fork").Pool(POOL)  # forked before any thread exists
     try:
         with ThreadPoolExecutor(max_workers=3) as ex:
@@ -597,6 +601,7 @@ def main(rep: Report, replay: dict | None) -> None:
     finally:
         pool.terminate()
         pool.join()
+        shutil.rmtree(W.RUN_DIR, ignore_errors=True)
 
     # ---- the model itself
     rep.add_tlc(res_mc)
@@ -611,9 +616,10 @@ def main(rep: Report, replay: dict | None) -> None:
                               "actions_generated": mc_counts, "wall_s": round(res_mc.wall_s, 1)}
     rep.exhaustive = True
     rep.extra["exhaustive_space"] = (
-        ("2" if quick else "6") + " configurations x every state with at most 7 (= all) components differing from "
-        "the initial state model-checked with every operation of the alphabet; every transition between states "
-        "of weight <= 3 replayed on the real widgets")
+        ("2" if quick else "6") + " configurations x the COMPLETE state graph of the model (image size setting x "
+        "second widget x cached canvas per widget x placeholder per class x failing image) model-checked with "
+        "every operation of the alphabet; every transition between states of weight <= 3 (first configuration) / "
+        "<= 2 (the others) replayed on the real widgets")
 
     # ---- canaries of the trace spec
     for (c, at, clause), v in zip(canaries, can_validated[0]):
